@@ -21,6 +21,7 @@ func init() {
 	vpRegister("c09_cmd_cache", vpH_c09_cmd_cache)
 	vpRegister("c09_pipeline", vpH_c09_pipeline)
 	vpRegister("c09_mixed_keys", vpH_c09_mixed_keys)
+	vpRegister("c09_from_nodes", vpH_c09_from_nodes)
 }
 
 // vpReparseStep: the stand-alone JSON decoder for one command step.
@@ -121,9 +122,17 @@ func vpH_c09_cmd_plugins() {
 	x := &CommandStep{Command: "c"}
 	src := "p" + vpStrUpTo(1, "a-c")
 	var cfg any
-	cfgKind := vpInt(0, 4)
+	cfgKind := vpInt(0, 8)
 	cv := vpStrUpTo(1, "x-z")
 	switch cfgKind {
+	case 5: // scalar configs are data too, falsy or not
+		cfg = false
+	case 6:
+		cfg = 0
+	case 7:
+		cfg = ""
+	case 8:
+		cfg = "on"
 	case 1:
 		cfg = map[string]any{}
 	case 2:
@@ -150,6 +159,14 @@ func vpH_c09_cmd_plugins() {
 		switch cfgKind {
 		case 0, 1, 4:
 			vpAssert(c2.Plugins[0].Config == nil, "absent and empty configs come back as nil")
+		case 5:
+			vpAssert(c2.Plugins[0].Config == any(false), "a scalar config comes back as it was (false)")
+		case 6:
+			vpAssert(c2.Plugins[0].Config == any(0), "a scalar config comes back as it was (0)")
+		case 7:
+			vpAssert(c2.Plugins[0].Config == any(""), "a scalar config comes back as it was (the empty string)")
+		case 8:
+			vpAssert(c2.Plugins[0].Config == any("on"), "a scalar config comes back as it was")
 		default:
 			m, isMap := c2.Plugins[0].Config.(map[string]any)
 			vpAssert(isMap && len(m) == len(cfg.(map[string]any)) && m["k"] == any(cv), "plugin configs come back as plain maps with the same data")
@@ -361,4 +378,60 @@ func vpH_c09_pipeline() {
 	}
 	b2, err2 := json.Marshal(p2)
 	vpAssert(err2 == nil && vpJEqual(b, b2), "normalisation is idempotent at pipeline level")
+}
+
+// From the node tree a YAML parser hands over: empty lists and mappings, nulls
+// and nested containers in free-form positions come out of the JSON leg and
+// the YAML leg as the same data, and the JSON normal form is a fixpoint.
+func vpH_c09_from_nodes() {
+	var extra *yaml.Node
+	switch vpInt(0, 5) {
+	case 0:
+		extra = vpYSeq() // depends_on: []
+	case 1:
+		extra = vpYMap() // {}
+	case 2:
+		extra = vpYMap(vpYStr("tags"), vpYSeq(), vpYStr("m"), vpYMap())
+	case 3:
+		extra = vpYSeq(vpYSeq(), vpYMap(), &yaml.Node{Kind: yaml.ScalarNode, Tag: "!!null", Value: "~"})
+	case 4:
+		extra = &yaml.Node{Kind: yaml.ScalarNode, Tag: "!!null", Value: "null"}
+	default:
+		extra = vpYSeq(vpYStr("a"), &yaml.Node{Kind: yaml.ScalarNode, Tag: "!!int", Value: "3"}, &yaml.Node{Kind: yaml.ScalarNode, Tag: "!!bool", Value: "true"})
+	}
+	var stepNode *yaml.Node
+	switch vpInt(0, 2) {
+	case 0:
+		stepNode = vpYMap(vpYStr("command"), vpYStr("c"), vpYStr("depends_on"), extra)
+	case 1:
+		stepNode = vpYMap(vpYStr("wait"), &yaml.Node{Kind: yaml.ScalarNode, Tag: "!!null", Value: "~"}, vpYStr("depends_on"), extra)
+	default:
+		stepNode = vpYMap(vpYStr("trigger"), vpYStr("t"), vpYStr("build"), vpYMap(vpYStr("meta_data"), extra))
+	}
+	doc := vpYMap(vpYStr("steps"), vpYSeq(stepNode), vpYStr("notify"), extra)
+	p := new(Pipeline)
+	if err := ordered.Unmarshal(doc, p); err != nil {
+		return
+	}
+	b1, e1 := json.Marshal(p)
+	vpAssert(e1 == nil, "the parsed pipeline marshals to JSON")
+	if e1 != nil {
+		return
+	}
+	var n1 yaml.Node
+	vpAssert(yaml.Unmarshal(b1, &n1) == nil, "the JSON form is readable")
+	pj := new(Pipeline)
+	vpAssert(ordered.Unmarshal(&n1, pj) == nil, "the JSON form re-parses")
+	bj, ej := json.Marshal(pj)
+	vpAssert(ej == nil && vpJEqual(b1, bj), "the JSON normal form is a fixpoint (empty lists, empty mappings and nulls keep their type)")
+	yb, ye := yaml.Marshal(p)
+	vpAssert(ye == nil, "the parsed pipeline marshals to YAML")
+	if ye == nil {
+		var n2 yaml.Node
+		vpAssert(yaml.Unmarshal(yb, &n2) == nil, "the YAML form is readable")
+		py := new(Pipeline)
+		vpAssert(ordered.Unmarshal(&n2, py) == nil, "the YAML form re-parses")
+		by, ey := json.Marshal(py)
+		vpAssert(ey == nil && vpJEqual(b1, by), "the YAML leg carries the same data as the JSON leg (an empty list is not null on one leg and [] on the other)")
+	}
 }
